@@ -197,6 +197,36 @@ Example C13_mapping_goes_to_the_taker :
     [RRDeclared; RRDone [((KG, 0), false)]].
 Proof. vm_compute. reflexivity. Qed.
 
+(* Open finding mapping-split: resolveResolvables takes the list of types and the list of mappings in two critical
+   sections (context.go:181, :187).  A px.NewGoObjectType (one declaration: a type and a mapping) that is declared
+   while a Do is between the two has its mapping taken by that Do and its type by a later one - a declaration is not
+   taken as a whole.  Witness: thread 1 declares X0 (cannot be resolved) and G1; thread 0's Do takes the types [X0],
+   thread 1 declares G1, thread 0 takes the mapping of G1 and escapes with the panic of X0; thread 1's Do takes and
+   resolves the type G1.  (Every sequential order in which thread 0's Do takes the mapping of G1 hands it the type too,
+   behind X0, where it stays unresolved.) *)
+Definition C13_statement_declaration_taken_whole : Prop :=
+  forall (p : rprog) (s : sched) (t : nat) (x : item),
+    In (EvProc t 1 x) (rtrace p s) -> In (EvProc t 0 x) (rtrace p s).
+Theorem C13_mapping_split_refuted : ~ C13_statement_declaration_taken_whole.
+Proof.
+  intros H.
+  pose proof (H [[RDo]; [RDecl (KX, 0); RDecl (KG, 1); RDo]] [1; 0; 0; 1; 0; 0; 0; 1; 1; 1; 1; 1; 1] 0 (KG, 1)) as Hx.
+  vm_compute in Hx.
+  assert (Hin : In (EvProc 0 1 (KG, 1)) (rtrace [[RDo]; [RDecl (KX, 0); RDecl (KG, 1); RDo]] [1; 0; 0; 1; 0; 0; 0; 1; 1; 1; 1; 1; 1])).
+  { vm_compute. tauto. }
+  vm_compute in Hin. specialize (Hx Hin).
+  repeat (destruct Hx as [Hx|Hx]; [discriminate Hx|]). exact Hx.
+Qed.
+Print Assumptions C13_mapping_split_refuted.
+
+Example C13_mapping_split_results :
+  let p := [[RDo]; [RDecl (KX, 0); RDecl (KG, 1); RDo]] in
+  let s := [1; 0; 0; 1; 0; 0; 0; 1; 1; 1; 1; 1; 1] in
+  (rresults_of 0 (rtrace p s) = [RRPanic]) /\
+  (rresults_of 1 (rtrace p s) = [RRDeclared; RRDeclared; RRDone [((KX, 0), false); ((KG, 1), false)]]) /\
+  (resolved_by 1 (rtrace p s) = [(KG, 1)]).
+Proof. vm_compute. repeat split. Qed.
+
 (* ---- never_half_built --------------------------------------------------------------------------------------- *)
 
 (* Every observation of a lazily cached inferred type (or key index) of a shared value, by whichever thread and
